@@ -19,7 +19,7 @@ EXPLANATION = (
     "of the eigenbasis; the tensor product follows the register order (op_list[k] with k from _qid_index, built by enumerating the register). SIB/PAIR: the Hamiltonian is symmetrised exactly once (ham + ham.dag()) and every "
     "Hermitian (diagonal) contribution -- the detuning coefficient and the van der Waals term -- carries the factor 1/2, the amplitude coefficient is 0.5*amp*exp(-1j*phase); the Global and Local branches build identical coefficient "
     "expressions. GUARD: make_xy_term iff the interaction is 'XY', vdW otherwise; SLM-masked pairs are skipped only in XY; the interaction is built iff 'digital' is not the basis; C6/R^6 and C3(1-3cos^2)/R^3 shapes (powers). "
-    "NOT decided: every matrix entry / numeric equality with the formula (runtime)."
+    "NOT decided: every matrix entry / numeric equality with the formula (runtime). GUARD (added): the per-run noise state (_bad_atoms, _doppler_detune) is reset by set_config exactly under the negation of the condition under which _update_noise redraws it (complementary guards at two sites)."
 )
 ASSUMPTIONS = ["coefficient formulas are matched on the symbolic normal form (pstatic/sym.py) up to permutation of factors; operator products (|x><y|) are matched in order", "the documented convention is read from docs/source/conventions.md"]
 
